@@ -396,8 +396,15 @@ pub fn run_shard(ctx: &ShardCtx) -> ShardReport {
         seen_violation_sigs: BTreeSet::new(),
     });
 
+    // debugging aid: VERIF_PARTS=a,b restricts the run to the named parts
+    let only: Option<Vec<String>> = std::env::var("VERIF_PARTS").ok().map(|s| s.split(',').map(|x| x.trim().to_string()).collect());
     for (pi, part) in ctx.def.parts.iter().enumerate() {
         let pname = part.name();
+        if let Some(only) = &only {
+            if !only.iter().any(|o| o == pname) {
+                continue;
+            }
+        }
 
         // 1. deterministic enumeration
         {
